@@ -3,6 +3,7 @@ package vc
 import (
 	"fmt"
 	"go/types"
+	"sort"
 	"strings"
 
 	"golang.org/x/tools/go/ssa"
@@ -91,8 +92,7 @@ func (f *frame) lvArgs(c *ssa.CallCommon) []*LV {
 func (f *frame) callCommon(c *ssa.CallCommon, in ssa.Instruction, st *bstate, resT types.Type) TV {
 	vc := f.vc
 	name := calleeName(c)
-	f.callOrd[name]++
-	ord := f.callOrd[name]
+	ord := f.srcOrdinal(in, name)
 	label := f.text(in.Pos(), name)
 	lvs := f.lvArgs(c)
 	args := f.callArgs(c)
@@ -781,7 +781,7 @@ func (f *frame) callsite(name string, ord int) *CallsiteC {
 		return nil
 	}
 	for _, cs := range f.contract.Callsites {
-		if cs.Ord == ord && matchCallee(cs.Callee, name) {
+		if (cs.Ord == ord || cs.Ord == 0) && matchCallee(cs.Callee, name) {
 			if f.csUsed == nil {
 				f.csUsed = map[*CallsiteC]bool{}
 			}
@@ -1052,4 +1052,41 @@ func (f *frame) tryTransBool(e CE, env *Env) (res string, ok bool) {
 		}
 	}()
 	return f.transBool(e, env), true
+}
+
+// srcOrdinal: 1-based position of the call among the calls to the same callee
+// in the function, in source order (stable under block reordering).
+func (f *frame) srcOrdinal(in ssa.Instruction, name string) int {
+	if f.ordOf == nil {
+		f.ordOf = map[ssa.Instruction]int{}
+		byName := map[string][]ssa.Instruction{}
+		for _, b := range f.fn.Blocks {
+			for _, i2 := range b.Instrs {
+				if ci, ok := i2.(ssa.CallInstruction); ok {
+					if _, isB := ci.Common().Value.(*ssa.Builtin); isB {
+						continue
+					}
+					n := calleeName(ci.Common())
+					byName[n] = append(byName[n], i2)
+				}
+			}
+		}
+		for _, list := range byName {
+			sort.SliceStable(list, func(a, b int) bool {
+				pa, pb := list[a].Pos(), list[b].Pos()
+				if pa == pb {
+					return list[a].Block().Index < list[b].Block().Index
+				}
+				return pa < pb
+			})
+			for k, i2 := range list {
+				f.ordOf[i2] = k + 1
+			}
+		}
+	}
+	if o, ok := f.ordOf[in]; ok {
+		return o
+	}
+	f.callOrd[name]++
+	return 1000 + f.callOrd[name]
 }
